@@ -192,7 +192,11 @@ def gen_cases(rng, ctx):
             style = "3cut"
         sizes = cuts(rng, len(stream), style, stream)
         acc = accepts(rng, rng.choice(["all", "all", "one", "random"])) if not front else []
-        toks = [[version, 1], list(method.encode()), list(uri.encode()), flat(req_hs), sum(([len(c)] + list(c) for c in body_chunks), []),
+        # an origin that keeps its connection open after the response (keep-alive): where the response says itself where it ends (a bodiless
+        # status or method, Content-Length, the last chunk for a de-chunking client) the client must be shown the end without the origin's help
+        keeps_open = (not front) and (not trailing) and rng.chance(1, 4) and (
+            method == "HEAD" or status in (204, 304) or mode == "cl" or (mode == "chunked" and version >= 2))
+        toks = [[version, 0 if keeps_open else 1], list(method.encode()), list(uri.encode()), flat(req_hs), sum(([len(c)] + list(c) for c in body_chunks), []),
                 list(stream), sizes, acc]
         window, pause = (rng.choice([4096, 8192, 16384]), rng.choice([0, 1])) if (front and big) else (0, 0)
         impl = line("c17_run", toks) if not front else line("c17_front", [[version, window, pause]] + toks[1:7])
@@ -246,7 +250,7 @@ def gen_cases(rng, ctx):
                           nontrivial=(style != "whole" or bool(acc)),
                           meta={"method": method, "path": path, "exp_req_hs": exp_req_hs, "fwd_body": list(fwd_body), "declared": declared,
                                 "version": version, "status": status, "interim": interim, "exp_hs": exp_hs, "exp_body": list(exp_body),
-                                "complete": complete, "trailing": bool(trailing), "sizes": sizes[:12], "acc": acc[:12], "mode": mode}))
+                                "complete": complete, "trailing": bool(trailing), "sizes": sizes[:12], "acc": acc[:12], "mode": mode, "keeps_open": keeps_open}))
     # the window boundary: an HTTP/3 client grants 4096 bytes and goes silent for 400 ms; the origin's body arrives in equal
     # pieces whose size is swept, so that for some sizes a piece fills the window to the last bytes and the next write finds no room
     for p_ in (range(40, 104, 2) if thorough else range(40, 104, 4)):
@@ -474,7 +478,9 @@ def judge(case, impl, model, spec, ctx):
             out.append(("violation", "%s: body delivered to the client differs from the origin's body (%d bytes vs %d; first difference at %d)"
                         % (what, len(body), len(m["exp_body"]), next((i for i, (a, b) in enumerate(zip(body, bytes(m["exp_body"]))) if a != b), min(len(body), len(m["exp_body"]))))))
         elif ceofs < 1 and eof_flag != 1:
-            out.append(("violation", "%s: the end of the response was never signalled to the client" % what))
+            out.append(("violation", "%s: the end of the response was never signalled to the client%s" % (what, " (the origin keeps its connection open: the response itself says where it ends)" if m.get("keeps_open") else "")))
+        elif m.get("keeps_open"):
+            pass        # (how the pipe itself ends while the origin stays is the idle timer's business, C14)
         elif code != 0 and not m["trailing"]:
             out.append(("violation", "%s: the exchange ended with an error (result %d) although the response was complete" % (what, code)))
     if not out and model is not None:
